@@ -5,7 +5,7 @@
    The fitted stages appear in the generated code as lists of functions; [chain_tf] / [chain_itf] / [chain_nsi] are
    those lists for a chain of the model. *)
 From Coq Require Import List ZArith NArith Arith Bool Lia.
-From PK Require Import PyList SliceLib Episodes Stage Helpers BridgeEpisodes BridgeStages.
+From PK Require Import PyList SliceLib Episodes Stage Helpers ShiftFacts BridgeEpisodes BridgeStages.
 From PK.Gen Require Import EpisodesGen FramesGen StagesGen.
 Import ListNotations.
 
@@ -127,6 +127,51 @@ Theorem gen_regressor_predict_model : forall (f : fitted T) (coef : list (list T
   = reg_predict O f coef X.
 Proof.
   intros f coef X. unfold gen_regressor_predict, reg_predict. cbn zeta. apply split_frame.
+Qed.
+
+(* ---------------- KoopmanPipeline.predict (one-step prediction): lift, regressor, pad the lifted inputs with zeros,
+   retract, keep the state columns.  The generated function works on (label, row) pairs; the model returns the raw
+   array (label in column 0 when there is an episode feature) *)
+Lemma to_raw_firstn : forall (ep : bool) n (Y : dmat T),
+  to_raw O ep (map (fun lr => (fst lr, firstn n (snd lr))) Y) = map (firstn (b2n ep + n)) (to_raw O ep Y).
+Proof. intros ep n Y. unfold to_raw. destruct ep; rewrite !map_map; apply map_ext; intros [l r]; reflexivity. Qed.
+
+Theorem gen_pipeline_predict_model : forall (f : fitted T) (coef : list (list T)) (R : list (list T)),
+  to_raw O (f_ep f)
+    (gen_pipeline_predict T (op_t0 O) (tf O (f_stage f) (f_ep f) (f_dims f)) (reg_predict O f coef) (snd (f_out f))
+       (itf O (f_stage f) (f_ep f) (f_dims f)) (snd (f_dims f)) (b2n (f_ep f) + fst (f_dims f) + snd (f_dims f)) (f_ep f)
+       (of_raw O (f_ep f) R))
+  = predict O f coef R.
+Proof.
+  intros f coef R. unfold gen_pipeline_predict, predict. cbn zeta.
+  set (Xp := reg_predict O f coef (tf O (f_stage f) (f_ep f) (f_dims f) (of_raw O (f_ep f) R))).
+  assert (Hpad : (if negb (Nat.eqb (snd (f_out f)) 0) then rowwise_pad (op_t0 O) Xp (snd (f_out f)) else Xp)
+                 = rowwise (fun r => r ++ repeat (op_t0 O) (snd (f_out f))) Xp).
+  { unfold rowwise, rowwise_pad. destruct (Nat.eqb_spec (snd (f_out f)) 0) as [->|_]; cbn [negb]; [|reflexivity].
+    cbn [repeat]. induction Xp as [|[l r] Xp' IH]; [reflexivity|]. cbn [map fst snd]. rewrite app_nil_r. now rewrite <- IH. }
+  rewrite Hpad.
+  destruct (Nat.eqb_spec (snd (f_dims f)) 0) as [H0|Hn]; cbn [negb]; [reflexivity|].
+  unfold dmat_cols_to. rewrite to_raw_firstn. f_equal. f_equal.
+  destruct (f_ep f); cbn [b2n]; lia.
+Qed.
+
+(* ---------------- KoopmanRegressor.fit: the pairs (row k of the first array, row k of the second) that reach the
+   concrete solver are the training pairs of the model (ShiftFacts.v) *)
+Theorem gen_regressor_fit_arguments_model : forall (ep : bool) (nu : nat) X,
+  let args := gen_regressor_fit_arguments T (shift_episodes ep nu) None X in
+  zip (fst args) (snd args) = training_pairs ep nu X.
+Proof. intros ep nu X. reflexivity. Qed.
+
+Theorem gen_regressor_fit_arguments_explicit : forall (sh : dmat T -> dmat T * dmat T) (X Y : dmat T),
+  gen_regressor_fit_arguments T sh (Some Y) X = (rows X, rows Y).
+Proof. reflexivity. Qed.
+
+(* ---------------- _weights_from_data_matrix *)
+Theorem gen_weights_model : forall (W : Type) (dpow : nat -> W) (wzero : W) (n_steps : option nat) (ep : bool) X,
+  gen_weights_from_data_matrix T W dpow wzero n_steps ep X = weights dpow wzero ep n_steps X.
+Proof.
+  intros W dpow wzero n_steps ep X. unfold gen_weights_from_data_matrix, weights. cbn zeta.
+  rewrite app_nil_l, gen_split_episodes_model, flat_map_concat_map. f_equal.
 Qed.
 
 End Frames.
